@@ -76,6 +76,10 @@ CHECKS = {
                   "outcome class, diagnostics multiset with line numbers and (when accepted) the full dump are compared with the Lean reader model; Display/Debug of every diagnostic is called; quoted lines are compared with the input.",
              note="level claimed = proof for the line-number statement, fault_enumeration for 'never panics' (recorded in the evidence); SEQRES validation is not modelled (those inputs are checked for totality and line quoting only); BufRead::lines and the Display text itself are not modelled.",
              technique="Lean 4 invariant proof over the reader model + fault enumeration with differential correspondence", ref="DESIGN §7 C05"),
+ 'C03': dict(text="Model: the PDB writer (get_line/print_line cells, every record emitter of save_pdb_raw, three writer levels) as a Lean function to bytes. Theorems on the cell writer the round trip rests on: every cell has exactly its width; a text that fits and is not a zero-led number is written verbatim, left aligned, and the reader's trim returns it (C03_cell_text_round_trip); an all-digit text that fits is written without its leading zeros and trim+parse::<usize> reads the same number (C03_cell_number_round_trip). "
+                  "Tie: generated full structures (1-3 models, metadata present/absent, all 230 groups, values at/inside/just outside every column limit, negative and inserted residue numbers, altlocs, ANISOU, DBREF/SEQADV/MODRES, bonds) x three writer levels: the real writer's bytes are compared with the model's byte for byte; the file is re-read at three reader levels by the real reader and compared field by field (numbers rounded to column precision) with the original; the second write must be byte identical; files with SEQRES are also re-read with those lines removed; 'fits the documented ranges => validate_pdb silent' on every case generated in-range; a sequentially numbered structure of 100 500 atoms goes through the Loose round trip.",
+             note="PARTIAL: the full write->read identity is not a theorem (only the cell-level lemmas are); it is decided per case by the implementation-side oracle on the real writer and reader, and the writer model is tied byte for byte. Open findings (known_findings.json): SEQRES written at Strict / with DBREF is not re-readable; Hermann-Mauguin symbols longer than 11 characters. f64 formatting is modelled on micro-unit decimals.",
+             technique="Lean 4 model of the writer + cell round-trip theorems + byte-exact differential correspondence + write/read/write oracle on the real code", ref="DESIGN §7 C03"),
 }
 NOT_APPLICABLE = {}
 ALL = ['C%02d' % i for i in range(1, 19)]
